@@ -65,6 +65,7 @@ type GenCfg struct {
 	OldParent    float64   // probability that an other-parent is an old event instead of the latest
 	BigIdx       bool
 	Rounds       bool      // round-based creation: every validator creates one event per round on top of the previous round
+	SealAtCascade bool     // the application seals at the first block (frame >= 2) that the generator instance decides as a second or later block of one Process call
 	Stall        int       // after the first round, a minority of the validators gossips alone for this many events (no frame can advance), then everybody returns
 	LagHeavy     bool      // the heaviest validator (first in canonical order) is slow
 	NapProb      float64   // probability (per own event) that a validator falls asleep for a long stretch and later wakes up seeing all heads
@@ -222,7 +223,12 @@ func Generate(r *rand.Rand, cfg GenCfg, rec *Recorder) *Scenario {
 		ep.Byz = 3*cw >= total
 		pv := buildVals(vals)
 		var nextVals []ValW
+		nbBeforeCall := -1 // number of blocks of the generator instance before its current Process call (-1: not generating)
 		seal := func(e idx.Epoch, f idx.Frame) *pos.Validators {
+			if e == ep.Epoch && cfg.SealAtCascade && ep.SealFrame == 0 && nbBeforeCall >= 0 && gen != nil &&
+				len(gen.Blocks)-nbBeforeCall >= 1 && f >= 2 && epi < cfg.Epochs-1 {
+				ep.SealFrame = f // from now on the rule is "seal at frame f" for every instance
+			}
 			if e == ep.Epoch && ep.SealFrame != 0 && f == ep.SealFrame {
 				return buildVals(nextVals)
 			}
@@ -280,7 +286,7 @@ func Generate(r *rand.Rand, cfg GenCfg, rec *Recorder) *Scenario {
 		prevRound := map[idx.ValidatorID]*Ev{}
 		hard := budget * 4
 		for n := 0; n < hard; n++ {
-			if ep.SealFrame == 0 && n >= budget {
+			if ep.SealFrame == 0 && n >= budget && !(cfg.SealAtCascade && epi < cfg.Epochs-1) {
 				break
 			}
 			if gen.Store.GetEpoch() != ep.Epoch {
@@ -427,7 +433,9 @@ func Generate(r *rand.Rand, cfg GenCfg, rec *Recorder) *Scenario {
 			}
 			s.finalize(ev)
 			nb := len(gen.Blocks)
+			nbBeforeCall = nb
 			err, critical = guarded(func() error { return gen.L.Process(te) })
+			nbBeforeCall = -1
 			if critical {
 				// a critical error (legitimate only when more than 1/3 are Byzantine): end of this run
 				if rec != nil {
